@@ -42,12 +42,16 @@ CLAIMS = {
          "the rewrite passes fill insns[100], vars[96]: InBounds holds with the capacity checks and is refuted without; "
          "the reachable boundary programs (below/at/above each capacity), every opcode in 4-6 operand forms, heavy "
          "opcode chains and variable-count overruns are compiled for all 8 registered targets in children of the "
-         "ASan/bounds build under a watchdog; every Compile event is validated against Trace_Compile.",
+         "ASan/bounds build under a watchdog; every Compile event is validated against Trace_Compile.  (C) ConstPool "
+         "models the compiler's pool of rule constants (constants[20], two passes, register assignment): InBounds and "
+         "RightValue hold with the capacity test and are refuted for the two pinned-code variants; programs asking for "
+         "10..34 different pooled constants are compiled for mmx/sse/avx and the pool hook events of those compiles are "
+         "validated against Trace_ConstPool (Cap = 20).",
     design_ref="DESIGN.md sections 6 (design) and 12 (as built), C05",
     note="Termination is a 20 s watchdog (normal compile: ~1 ms); non-native back ends are compiled, never executed; "
          "flag subsets other than the default are exercised by C11.",
-    technique="TLA+ specs (OrcSystem, CompilerTables) + TLC; TLC-generated boundary programs compiled under sanitizers; "
-              "TLC trace validation of compile events"),
+    technique="TLA+ specs (OrcSystem, CompilerTables, ConstPool) + TLC; TLC-generated boundary programs compiled under "
+              "sanitizers; TLC trace validation of compile events and constant-pool hook events"),
  "C17": dict(
     text="Determinism ghost `image` in Trace_OrcSystem: the first successful compile of a key (program, target) fixes "
          "the digests of machine code and listing; every later compile of that key must reproduce them, whatever the "
